@@ -468,7 +468,7 @@ fn run_inner<K: KeyLike>(case: &Case, prop: Prop, keep_trace: bool, keys: &[u16]
                         return Err(vio(prop, i, kind, op, "iter-order", format!("step {i} {op:?}: iter() {:?} / reversed iter_lru() {:?} differ from the recency order {:?}", f, b, view.lists[0])));
                     }
                     if let Op::Resize(n) = op {
-                        if sut.cap() != *n as usize {
+                        if sut.cap() != resize_target(*n) {
                             return Err(vio(prop, i, kind, op, "resize-cap", format!("step {i}: cap() is {} after resize({n})", sut.cap())));
                         }
                     }
@@ -553,7 +553,7 @@ fn c01_check<K: KeyLike>(sut: &Sut<K>, kind: Kind, cfg: &Cfg, op: &Op, i: usize,
         return Err(vio(p, i, kind, op, "len!=resident", format!("step {i} {op:?}: len() {len} but {res_len} resident entries; state [{}]", fmt_lists(kind, &view.lists))));
     }
     if let Op::Resize(n) = op {
-        if cap != *n as usize {
+        if cap != resize_target(*n) {
             return Err(vio(p, i, kind, op, "resize-cap", format!("step {i}: cap() {cap} after resize({n})")));
         }
     }
